@@ -442,8 +442,28 @@ func generateSafeImageFileName(imageID int, originalFileName string, format Imag
 	return safeFileName
 }
 
+// normalizeImageFormat 确保图片格式是库支持的三种格式之一。
+// 媒体部件的扩展名和内容类型都由格式决定；对于未声明的格式值（包括零值""），
+// 改为从图片数据中检测格式，检测失败则返回错误，避免写出没有内容类型的媒体部件。
+func normalizeImageFormat(imageData []byte, format ImageFormat) (ImageFormat, error) {
+	switch format {
+	case ImageFormatPNG, ImageFormatJPEG, ImageFormatGIF:
+		return format, nil
+	}
+	detected, err := detectImageFormat(imageData)
+	if err != nil {
+		return "", fmt.Errorf("不支持的图片格式 %q: %v", string(format), err)
+	}
+	return detected, nil
+}
+
 // AddImageFromData 从数据添加图片到文档
 func (d *Document) AddImageFromData(imageData []byte, fileName string, format ImageFormat, width, height int, config *ImageConfig) (*ImageInfo, error) {
+	format, err := normalizeImageFormat(imageData, format)
+	if err != nil {
+		return nil, err
+	}
+
 	if d.documentRelationships == nil {
 		d.documentRelationships = &Relationships{
 			Xmlns:         "http://schemas.openxmlformats.org/package/2006/relationships",
@@ -498,6 +518,11 @@ func (d *Document) AddImageFromData(imageData []byte, fileName string, format Im
 // AddImageFromDataWithoutElement 从数据添加图片到文档但不创建段落元素
 // 此方法供模板引擎等需要自行管理图片段落的场景使用
 func (d *Document) AddImageFromDataWithoutElement(imageData []byte, fileName string, format ImageFormat, width, height int, config *ImageConfig) (*ImageInfo, error) {
+	format, err := normalizeImageFormat(imageData, format)
+	if err != nil {
+		return nil, err
+	}
+
 	if d.documentRelationships == nil {
 		d.documentRelationships = &Relationships{
 			Xmlns:         "http://schemas.openxmlformats.org/package/2006/relationships",
